@@ -196,7 +196,11 @@ def run_cases(ck: Check, n: int):
                 with h5py.File(path, "r") as fp:
                     dump = dump_dataset(fp[list(fp.keys())[0]])
                 model(enc_req, "ok " + dump, case)
-                back = Emulsion.from_file(path)
+                try:
+                    back = Emulsion.from_file(path)
+                except Exception as e:  # noqa: BLE001
+                    ck.fail(f"emulsion written without error cannot be read back: {type(e).__name__}: {e}", {**sig, "check": "encode_error_or_faithful"}, case)
+                    continue
                 if not safe_eq(back, obj) or not same_droplets(back, obj):
                     ck.fail("emulsion written without error reads back different", {**sig, "check": "encode_error_or_faithful"}, case)
                 model("c08 decE " + dump, ("ok " + " ".join(drop_token(d) for d in back)).strip(), case)
@@ -220,7 +224,11 @@ def run_cases(ck: Check, n: int):
                 with h5py.File(path, "r") as fp:
                     dump = dump_dataset(fp[list(fp.keys())[0]])
                 model(enc_req, "ok " + dump, case)
-                back = DropletTrack.from_file(path)
+                try:
+                    back = DropletTrack.from_file(path)
+                except Exception as e:  # noqa: BLE001
+                    ck.fail(f"DropletTrack written without error cannot be read back: {type(e).__name__}: {e}", {**sig, "check": "track_error_or_faithful"}, case)
+                    continue
                 ok = safe_eq(back, obj) and same_droplets(back.droplets, obj.droplets) and [float(t) for t in back.times] == [float(t) for t in obj.times]
                 if not ok:
                     ck.fail("track written without error reads back different", {**sig, "check": "track_error_or_faithful"}, case)
@@ -247,7 +255,11 @@ def run_cases(ck: Check, n: int):
                     for k, (key, m) in enumerate(zip(keys, members)):
                         model(("c08 encE " + " ".join(drop_token(d) for d in m)).strip(), "ok " + dump_dataset(fp[key]), case)
                         model(f"c08 key {k}", "ok " + key.split("_")[1], case)
-                back = EmulsionTimeCourse.from_file(path, progress=False)
+                try:
+                    back = EmulsionTimeCourse.from_file(path, progress=False)
+                except Exception as e:  # noqa: BLE001
+                    ck.fail(f"EmulsionTimeCourse written without error cannot be read back: {type(e).__name__}: {e}", {**sig, "check": "encode_error_or_faithful"}, case)
+                    continue
                 ok = safe_eq(back, obj) and len(back) == nfr and all(same_droplets(a, b) for a, b in zip(back.emulsions, obj.emulsions)) and \
                     [float(t) for t in back.times] == [float(t) for t in obj.times]
                 if not ok:
@@ -270,7 +282,11 @@ def run_cases(ck: Check, n: int):
                     keys = sorted(fp.keys())
                     if keys != [f"track_{k:06d}" for k in range(ntr)]:
                         ck.fail(f"keys are {keys[:3]}..", {**sig, "check": "keys"}, case)
-                back = DropletTrackList.from_file(path, progress=False)
+                try:
+                    back = DropletTrackList.from_file(path, progress=False)
+                except Exception as e:  # noqa: BLE001
+                    ck.fail(f"DropletTrackList written without error cannot be read back: {type(e).__name__}: {e}", {**sig, "check": "track_error_or_faithful"}, case)
+                    continue
                 ok = len(back) == ntr and all(safe_eq(a, b) and same_droplets(a.droplets, b.droplets) and [float(t) for t in a.times] == [float(t) for t in b.times] for a, b in zip(back, obj))
                 if not ok:
                     ck.fail("track list written without error reads back different", {**sig, "check": "roundtrip_tracklist"}, case)
